@@ -1,5 +1,6 @@
 (** Correspondence for the scope family: Scope/Interp.v vs the real ScopeManager. *)
-From Selene Require Export Corr.Common Scope.Interp Scope.Zones Lints.ScopeLints Scope.GFragment.
+From Selene Require Export Corr.Common Scope.Interp Scope.Zones Lints.ScopeLints Scope.GFragment Lints.Unused.
+From Selene Require Export Std.Lib.
 
 Record iref := { i_range : range; i_name : string; i_read : bool; i_write : option wkind;
                  i_resolved : option range; i_initial : bool }.
@@ -11,7 +12,10 @@ Inductive case :=
          (roots : list string)                    (* standard-library roots *)
          (undefined : list range)                 (* undefined_variable diagnostics, in order *)
          (shadowing : list (range * range))       (* shadowing: primary, secondary *)
-         (unused : list range)                    (* unused_variable: primary *)
+         (unused : list (range * bool))           (* unused_variable: primary, "assigned a value" wording *)
+         (lib : Std.Lib.lib)                      (* the standard library the lints ran with *)
+         (ignored : list string)                  (* variable names the ignore_pattern matches *)
+         (allow_self : bool)
 | CScopePanic (chunk : block).
 
 Definition var_ident (s : st) (id : N) : range :=
@@ -47,7 +51,8 @@ Definition var_eqb (s : st) (m : rvar) (i : ivar) : bool :=
 
 Definition check_case (c : case) : N * N :=
   match c with
-  | CScope chunk irefs ivars roots undefined shadowing unused =>
+  | CScope chunk irefs ivars roots undefined shadowing unused_f lib ignored allow_self =>
+      let unused := map fst unused_f in
       let corr :=
         match scope_manager chunk with
         | Some s => list_eqb2 (ref_eqb s) (refs s) irefs && list_eqb2 (var_eqb s) (Interp.vars s) ivars
@@ -57,20 +62,31 @@ Definition check_case (c : case) : N * N :=
         | None => false
         end in
       (* the specification (Lua scoping), evaluated on what the implementation reported *)
+      (* unused_variable: the lint model on the model's state vs the real verdicts (same declarations, same wording) *)
+      let cfg := {| u_ignored := fun n => existsb (str_eqb n) ignored; u_allow_self := allow_self |} in
+      let lint_ok :=
+        match scope_manager chunk with
+        | Some s =>
+            let m := unused_report cfg lib s chunk in
+            forallb (fun x => existsb (fun y => Interp.range_eq (fst x) (fst y) && Bool.eqb (snd x) (snd y)) unused_f) m
+            && forallb (fun y => existsb (fun x => Interp.range_eq (fst x) (fst y) && Bool.eqb (snd x) (snd y)) m) unused_f
+            && Nat.eqb (List.length m) (List.length unused_f)
+        | None => true
+        end in
       let os := occs chunk in
       let ds := decls chunk in
       let z1 := c01_zone os roots undefined in
       let z3 := c03_zone os ds shadowing in
       let captured := fun r => existsb (fun v => Zones.range_eq (iv_range v) r
                                                  && match iv_refs v with [] => false | _ => true end) ivars in
-      let z2 := c02_zone os ds roots unused captured in
+      let z2 := c02_zone os ds roots unused captured (fun n => existsb (str_eqb n) ignored) allow_self in
       (* hypotheses of theorem C01_never_reports_locals: token ranges are pairwise distinct (bit 2 when
          violated); whether the program lies in the fragment the theorem covers is reported in bit 2^40
          of the second component (informational, not a class) *)
       let ranges := map (fun o => t_range (o_tok o)) os in
       let distinct := (fix nd (l : list range) : bool :=
                          match l with [] => true | r :: rest => negb (existsb (Zones.range_eq r) rest) && nd rest end) ranges in
-      ((bit (negb corr) 1 + bit (negb distinct) 2 + N.lor (fst z1) (N.lor (fst z2) (fst z3)))%N,
+      ((bit (negb corr) 1 + bit (negb distinct) 2 + bit (negb lint_ok) 256 + N.lor (fst z1) (N.lor (fst z2) (fst z3)))%N,
        (* known-class masks per property: C01 in bits 0-9, C02 in bits 10-19, C03 in bits 20-29 *)
        (snd z1 + 1024 * snd z2 + 1048576 * snd z3 + bit (gok_block chunk) 1099511627776)%N)
   | CScopePanic chunk =>
